@@ -33,6 +33,9 @@ def gen_plan(rng):
         'rekey': {'c_bytes': rng.choice(THRESHOLDS),
                   's_bytes': rng.choice(THRESHOLDS)},
         'gap': rng.below(3),
+        # the receiving session stops reading after its first piece of data
+        # (what arrives is parked in the channel) and never resumes
+        'recv_pauses': rng.chance(30),
         # the link is lost a drawn number of steps after close(): whatever
         # close() is still waiting for, the connection has to end (what was
         # written may be lost then)
@@ -69,6 +72,8 @@ def valid_plan(plan):
 class _Rec:
     """Callback session recording what it is given"""
 
+    pauses = False
+
     def __init__(self):
         self.data = bytearray()
         self.eof = False
@@ -87,6 +92,10 @@ class _Rec:
             self.after_lost += 1
 
         self.data.extend(data)
+
+        if self.pauses:
+            self.pauses = False
+            self.chan.pause_reading()
 
     def eof_received(self):
         self.eof = True
@@ -172,6 +181,10 @@ def run_plan(plan, sched_seed=None, sched_replay=None):
 
         for _ in range(4):
             await sim.pause('settle')
+
+        if plan.get('recv_pauses'):
+            (res['srv'] if plan['writer'] == 'c' else res['cli']).pauses = True
+            sim.probes['receiver_paused_at_close'] += 1
 
         sconn = res['srv'].chan.get_connection()
         closer, other = (conn, sconn) if plan['writer'] == 'c' \
